@@ -23,13 +23,14 @@ type params struct {
 	twice     bool   // fail in the first two incarnations
 	hookFail  string // none | prerestart | restarted
 	slowDec   bool   // the supervisor's decision maker answers only after the failed child has been killed by somebody else
+	unbecome  bool   // after the failure has been dealt with, the actor does Become, handles a message, UnBecome, handles another
 	combo     bool   // the actor is built with vivid.NewComplexCombinationActor: [a Prelaunch part that carries the scripted failure, the scripted actor, a Prelaunch part that always succeeds]
 	lateSpawn bool   // an outside goroutine spawns a top-level actor while the system is being stopped
 	watch     string // none | b-dies-first: b watches a, b is killed, then a is killed (a's notification finds a dead watcher)
 }
 
 func (p params) name() string {
-	return fmt.Sprintf("site=%s/%s/dec=%s/prov=%v/become=%v/kill=%s/prelaunch=%s/twice=%v/hook=%s", p.site, p.cause, p.decision.String(), p.provider, p.become, p.kill, p.prelaunch, p.twice, p.hookFail) + map[bool]string{true: "/combination-actor", false: ""}[p.combo] + map[bool]string{true: "/late-spawn", false: ""}[p.lateSpawn] + map[bool]string{true: "/slow-decision", false: ""}[p.slowDec] + map[bool]string{true: "/watch=" + p.watch, false: ""}[p.watch != "" && p.watch != "none"]
+	return fmt.Sprintf("site=%s/%s/dec=%s/prov=%v/become=%v/kill=%s/prelaunch=%s/twice=%v/hook=%s", p.site, p.cause, p.decision.String(), p.provider, p.become, p.kill, p.prelaunch, p.twice, p.hookFail) + map[bool]string{true: "/become-unbecome-afterwards", false: ""}[p.unbecome] + map[bool]string{true: "/combination-actor", false: ""}[p.combo] + map[bool]string{true: "/late-spawn", false: ""}[p.lateSpawn] + map[bool]string{true: "/slow-decision", false: ""}[p.slowDec] + map[bool]string{true: "/watch=" + p.watch, false: ""}[p.watch != "" && p.watch != "none"]
 }
 
 func fail(ctx vivid.ActorContext, cause string) {
@@ -78,6 +79,8 @@ func scenario(p params, bounds []int) *vexp.Scenario {
 				switch m.ID {
 				case "become":
 					ctx.Become(act.Alt("alt"))
+				case "unbecome":
+					ctx.UnBecome()
 				case "boom":
 					booms++
 					if booms == 1 || p.twice {
@@ -206,6 +209,12 @@ func scenario(p params, bounds []int) *vexp.Scenario {
 			vrt.Yield()
 			tell("m3")
 			vrt.Quiesce()
+			if p.unbecome {
+				// in the incarnation that runs now (after the restart, if there was one): switch behaviour and back
+				tell("become")
+				tell("m3b")
+				tell("unbecome")
+			}
 			tell("m4")
 			vrt.Quiesce()
 			if p.prelaunch == "spawn" {
@@ -292,6 +301,16 @@ func build(tier string) []*vexp.Scenario {
 			for _, prov := range []bool{false, true} {
 				p := base
 				p.site, p.cause, p.decision, p.provider = "deep", cause, d, prov
+				add(p)
+			}
+		}
+	}
+	// Become / UnBecome in the incarnation that follows the failure
+	for _, d := range []vivid.SupervisionDecision{vivid.SupervisionDecisionRestart, vivid.SupervisionDecisionGracefulRestart, vivid.SupervisionDecisionResume} {
+		for _, prov := range []bool{false, true} {
+			for _, tw := range []bool{false, true} {
+				p := base
+				p.site, p.decision, p.unbecome, p.provider, p.twice = "msg", d, true, prov, tw
 				add(p)
 			}
 		}
